@@ -158,12 +158,12 @@ def parse_reports(out):
     """-> (reports, done) ; reports: dicts(tag, prop, clause, l, known, h); done: dict(n, apps) or None"""
     reps, done = [], None
     for t in _tuples(out):
-        m = re.match(r'<< "(VIOL|DEV)", "([^"]*)", "([^"]*)", (\d+), "([^"]*)", "(.*)" >>$', t)
+        m = re.match(r'<<\s*"(VIOL|DEV)",\s*"([^"]*)",\s*"([^"]*)",\s*(\d+),\s*"([^"]*)",\s*"(.*)"\s*>>$', t)
         if m:
             reps.append({'tag': m.group(1), 'prop': m.group(2), 'clause': m.group(3), 'l': int(m.group(4)),
                          'known': m.group(5), 'h': m.group(6)})
             continue
-        m = re.match(r'<< "DONE", (\d+), \[(.*)\] >>$', t)
+        m = re.match(r'<<\s*"DONE",\s*(\d+),\s*\[(.*)\]\s*>>$', t)
         if m:
             apps = {}
             for pm in re.finditer(r'(\w+) \|-> <<([^>]*)>>', m.group(2)):
@@ -173,7 +173,7 @@ def parse_reports(out):
     return reps, done
 
 
-def validate_trace(module, trace_path, workdir, shards=None, per_shard=150, timeout=3600, cfg_text=None,
+def validate_trace(module, trace_path, workdir, shards=None, per_shard=300, timeout=3600, cfg_text=None,
                    reset_kind=None):
     """Shard an NDJSON trace, validate every shard with spec/<module>.tla (one TLC process per shard,
     -workers 1), and merge.  Event indices in the result are 0-based lines of the input file.
@@ -183,11 +183,14 @@ def validate_trace(module, trace_path, workdir, shards=None, per_shard=150, time
         lines = [ln for ln in f.read().split('\n') if ln.strip()]
     if not lines:
         raise ToolError('empty trace ' + trace_path)
-    # cut points
+    tla_lines = [strip_for_tla(ln) for ln in lines]
+    # cut points: a world trace can be cut at a reset, or after any tx event (whose full post-state
+    # becomes the synthetic reset that starts the next shard); a math trace can be cut anywhere
     if reset_kind:
-        starts = [i for i, ln in enumerate(lines) if ('"k":"%s"' % reset_kind) in ln]
-        if not starts or starts[0] != 0:
+        if ('"k":"%s"' % reset_kind) not in lines[0]:
             raise ToolError('trace does not start with a %s event' % reset_kind)
+        starts = [i for i, ln in enumerate(lines)
+                  if ('"k":"%s"' % reset_kind) in ln or (i > 0 and '"k":"tx"' in lines[i - 1])]
     else:
         starts = list(range(len(lines)))
     if shards is None:
@@ -206,16 +209,23 @@ def validate_trace(module, trace_path, workdir, shards=None, per_shard=150, time
         d = os.path.join(workdir, 'shard%02d' % idx)
         os.makedirs(d, exist_ok=True)
         tp = os.path.join(d, 'trace.ndjson')
+        body = tla_lines[a:b]
+        off = 0
+        if reset_kind and ('"k":"%s"' % reset_kind) not in lines[a]:
+            prev = json.loads(tla_lines[a - 1])
+            body = [json.dumps({'k': reset_kind, 'world': prev['post'], 'h': 'shard start'}, separators=(',', ':'))] + body
+            off = 1
         with open(tp, 'w') as f:
-            f.write('\n'.join(lines[a:b]) + '\n')
+            f.write('\n'.join(body) + '\n')
         out = run_tlc(module, cfg, d, workers=1, env={'TRACE': tp}, timeout=timeout, heap='3g', gcthreads=2)
         reps, done = parse_reports(out)
-        if done is None or done['n'] != b - a:
+        if done is None or done['n'] != b - a + off:
             err = tlc_failed(out) or out[-3000:]
             raise ToolError('trace validation of %s[%d:%d] did not consume the whole trace:\n%s' % (trace_path, a, b, err))
+        reps = [r for r in reps if r['l'] > off]
         for r in reps:
-            r['i'] = a + r['l'] - 1
-        apps = {p: [a + l - 1 for l in ls] for p, ls in done['apps'].items()}
+            r['i'] = a + r['l'] - 1 - off
+        apps = {p: [a + l - 1 - off for l in ls if l > off] for p, ls in done['apps'].items()}
         return reps, apps, b - a
 
     t0 = time.time()
@@ -229,6 +239,20 @@ def validate_trace(module, trace_path, workdir, shards=None, per_shard=150, time
             apps.setdefault(p, []).extend(ls)
     log('[trace] %s: %d events, %d shards, %.1fs' % (module, n, len(pieces), time.time() - t0))
     return {'reports': reps, 'apps': apps, 'n': n, 'lines': lines}
+
+
+def strip_for_tla(line):
+    """Drop the fields the specification does not read (replay material, error text): JSON null is not
+    representable in TLA+."""
+    if '"raw"' not in line and '"setup"' not in line and '"text"' not in line:
+        return line
+    e = json.loads(line)
+    for k in ('raw', 'setup', 'names', 'users', 'accounts', 'bytes'):
+        e.pop(k, None)
+    for k in ('res', 'ans'):
+        if isinstance(e.get(k), dict):
+            e[k].pop('text', None)
+    return json.dumps(e, separators=(',', ':'))
 
 
 def event_key(line):
